@@ -119,6 +119,14 @@ class Shared(Command):
     output = params.StringParameter()
     def execute(self, **kw): return "updup.b.Shared"
 ''',
+    # a library that is importable only from inside the sub-directory wd/ (never on sys.path)
+    "wd/wdlib.py": '''
+from mpilot import params
+from mpilot.commands import Command
+class WdOnly(Command):
+    output = params.StringParameter()
+    def execute(self, **kw): return "wd.wdlib.WdOnly"
+''',
     "upkg_more/__init__.py": "",
     "upkg_more/three.py": '''
 from mpilot import params
@@ -184,6 +192,10 @@ def main():
             if kind == "program":
                 from mpilot.program import Program
                 Program(libraries=tuple(step[1]))
+            elif kind == "program-wd":
+                # a program whose working directory happens to hold a module named like the requested library
+                from mpilot.program import Program
+                Program(libraries=tuple(step[1]), working_dir=os.path.join(d, "wd"))
             elif kind == "import":
                 __import__(step[1])
             elif kind == "define":
